@@ -250,13 +250,64 @@ theorem registerTail_auth {l : List User} {st1 : St} {u0 : User} (hl : AuthFrom 
       · exact hs
       · exact authFrom_trans hs (delUser_auth _ _)
 
-/-- the logins an operation may add: `identify` one, every other operation none -/
+theorem pruneScan_sub (timeout now : Int) (h : Str) (l : List (Int × Str)) :
+    ∀ e ∈ pruneScan timeout now h l, e ∈ l := by
+  induction l with
+  | nil => intro e he; cases he
+  | cons a rest ih =>
+    intro e he
+    unfold pruneScan at he
+    split at he
+    · exact List.mem_cons_of_mem _ (ih e he)
+    · split at he
+      · exact he
+      · rcases List.mem_cons.1 he with h1 | h1
+        · exact h1 ▸ List.mem_cons_self
+        · exact List.mem_cons_of_mem _ (ih e h1)
+
+theorem followAuth_mem (old new : Str) (l : List (Int × Str)) :
+    ∀ e ∈ followAuth old new l, e ∈ l ∨ ∃ a ∈ l, strEqual old a.2 = true ∧ e = (a.1, new) := by
+  intro e he
+  simp only [followAuth, List.mem_map] at he
+  obtain ⟨a, ha, hea⟩ := he
+  by_cases hm : strEqual old a.2 = true
+  · rw [if_pos hm] at hea
+    exact Or.inr ⟨a, ha, hm, hea.symm⟩
+  · rw [if_neg hm] at hea
+    exact Or.inl (hea ▸ ha)
+
+theorem followFirst_mem (old new : Str) (l : List (Int × Str)) :
+    ∀ e ∈ followFirst old new l, e ∈ l ∨ ∃ a ∈ l, strEqual old a.2 = true ∧ e = (a.1, new) := by
+  induction l with
+  | nil => intro e he; cases he
+  | cons a rest ih =>
+    intro e he
+    unfold followFirst at he
+    by_cases hm : strEqual old a.2 = true
+    · rw [if_pos hm] at he
+      rcases List.mem_cons.1 he with h | h
+      · exact Or.inr ⟨a, List.mem_cons_self, hm, h⟩
+      · exact Or.inl (List.mem_cons_of_mem _ h)
+    · rw [if_neg hm] at he
+      rcases List.mem_cons.1 he with h | h
+      · exact Or.inl (h ▸ List.mem_cons_self)
+      · rcases ih e h with h1 | ⟨b, hb, hbm, hbe⟩
+        · exact Or.inl (List.mem_cons_of_mem _ h1)
+        · exact Or.inr ⟨b, List.mem_cons_of_mem _ hb, hbm, hbe⟩
+
+/-- the logins an operation may add: `identify` one, `followNick` the moved ones, every other
+operation none -/
 def extraOf (st : St) : Op → List (Nat × (Int × Str))
   | .identify id h => [(id, (st.now, h))]
+  | .followNick id old new =>
+    match st.db.getUserById id with
+    | some u => (u.auth.filter (fun a => strEqual old a.2)).map (fun a => (id, (a.1, new)))
+    | none => []
   | _ => []
 
-/-- **No dictionary operation other than `identify` creates a login entry**, and `identify id h`
-creates at most the entry `(now, h)` for account `id`. -/
+/-- **No dictionary operation other than `identify` and `followNick` writes a login entry**:
+`identify id h` creates at most the entry `(now, h)` for account `id`, and `followNick id old new`
+at most `(t, new)` for the entries `(t, m)` of account `id` with `m` equal to `old` (IRC case). -/
 theorem step_auth (st : St) (op : Op) : AuthFrom st.db.users (extraOf st op) (step st op).1.db.users := by
   cases op with
   | register name h =>
@@ -374,6 +425,42 @@ theorem step_auth (st : St) (op : Op) : AuthFrom st.db.users (extraOf st op) (st
         (∃ v ∈ st.db.users, v.id = u.id ∧ e ∈ v.auth) ∨ (u.id, e) ∈ ([] : List (Nat × (Int × Str))) :=
       fun e he => Or.inl ⟨u, hu, rfl, he⟩
     exact setUser_auth_from (authFrom_put hput) hput
+  | followNick id old new =>
+    simp only [step, extraOf]
+    unfold withUser
+    cases hg : st.db.getUserById id with
+    | none => exact authFrom_refl _ _
+    | some u =>
+      dsimp only
+      obtain ⟨hu, huid⟩ := getUserById_spec hg
+      split
+      · exact authFrom_refl _ _
+      · have key : ∀ auth' : List (Int × Str),
+            (∀ e ∈ auth', e ∈ u.auth ∨ ∃ a ∈ u.auth, strEqual old a.2 = true ∧ e = (a.1, new)) →
+            ∀ e ∈ ({ u with auth := auth' } : User).auth,
+              (∃ v ∈ st.db.users, v.id = u.id ∧ e ∈ v.auth) ∨
+              (u.id, e) ∈ (u.auth.filter (fun a => strEqual old a.2)).map (fun a => (id, (a.1, new))) := by
+          intro auth' h e he
+          rcases h e he with h1 | ⟨a, ha, hm, hea⟩
+          · exact Or.inl ⟨u, hu, rfl, h1⟩
+          · right
+            rw [List.mem_map]
+            exact ⟨a, List.mem_filter.2 ⟨ha, hm⟩, by rw [hea, huid]⟩
+        have sub_follow : ∀ {auth' : List (Int × Str)},
+            (∀ e ∈ auth', e ∈ pruneScan st.db.timeout st.now old u.auth ∨
+              ∃ a ∈ pruneScan st.db.timeout st.now old u.auth, strEqual old a.2 = true ∧ e = (a.1, new)) →
+            ∀ e ∈ auth', e ∈ u.auth ∨ ∃ a ∈ u.auth, strEqual old a.2 = true ∧ e = (a.1, new) := by
+          intro auth' h e he
+          rcases h e he with h1 | ⟨a, ha, hm, hea⟩
+          · exact Or.inl (pruneScan_sub _ _ _ _ _ h1)
+          · exact Or.inr ⟨a, pruneScan_sub _ _ _ _ _ ha, hm, hea⟩
+        split
+        · have hput := key (followFirst old new (pruneScan st.db.timeout st.now old u.auth))
+            (sub_follow (followFirst_mem old new _))
+          exact setUser_auth_from (authFrom_put hput) hput
+        · have hput := key (followAuth old new (pruneScan st.db.timeout st.now old u.auth))
+            (sub_follow (followAuth_mem old new _))
+          exact setUser_auth_from (authFrom_put hput) hput
   | clearHosts id =>
     simp only [step, extraOf]
     apply withUser_auth
@@ -709,6 +796,122 @@ theorem guard_identify {pwOk : Str → Str → Bool} {pst : PSt} {c : Cmd} {id :
   | whoami p => simp only [guard] at hg; cases hg
   | tick dt => simp only [guard] at hg; cases hg
 
+/-- dictionary operations that rewrite logins after a nick change -/
+def Op.isFollow : Op → Bool
+  | .followNick _ _ _ => true
+  | _ => false
+
+theorem removeOp_not_follow (i : Nat) (m : Str) : (removeOp i m).isFollow = false := by
+  unfold removeOp; split <;> rfl
+
+theorem hostAddBody_not_follow (pwOk : Str → Str → Bool) (pst : PSt) (st : St) (p : Str) (u : User)
+    (hm pw : Str) (op : Op) (hg : (hostAddBody pwOk pst st p u hm pw).2 = .run op) : op.isFollow = false := by
+  unfold hostAddBody hostAddCore at hg
+  generalize (if hm.isEmpty then p else hm) = hm' at hg
+  dsimp only at hg
+  split at hg
+  · cases hg
+  · split at hg
+    · cases hg
+    · split at hg
+      · cases hg
+      · injection hg with hg; subst hg; rfl
+
+theorem hostRemoveBody_not_follow (pwOk : Str → Str → Bool) (pst : PSt) (st : St) (p : Str) (u : User)
+    (hm pw : Str) (op : Op) (hg : (hostRemoveBody pwOk pst st p u hm pw).2 = .run op) : op.isFollow = false := by
+  unfold hostRemoveBody hostRemoveCore at hg
+  generalize (if hm.isEmpty then p else hm) = hm' at hg
+  dsimp only at hg
+  split at hg
+  · split at hg
+    · cases hg
+    · injection hg with hg; subst hg; exact removeOp_not_follow _ _
+  · injection hg with hg; subst hg; exact removeOp_not_follow _ _
+
+/-- **no command of the User plugin rewrites logins**: `followNick` is never what a guard hands
+to the dictionary -/
+theorem guard_not_follow {pwOk : Str → Str → Bool} {pst : PSt} {c : Cmd} {op : Op}
+    (hg : (guard pwOk pst c).2 = .run op) : op.isFollow = false := by
+  cases c with
+  | register p name pw =>
+    simp only [guard] at hg
+    split at hg
+    · cases hg
+    · split at hg
+      · cases hg
+      · dsimp only at hg
+        split at hg
+        · split at hg
+          · injection hg with hg; subst hg; rfl
+          · cases hg
+        · injection hg with hg; subst hg; rfl
+        · cases hg
+    · cases hg
+  | identify p name pw =>
+    simp only [guard] at hg
+    split at hg
+    · split at hg
+      · injection hg with hg; subst hg; rfl
+      · cases hg
+    · cases hg
+  | changename p name newname pw =>
+    simp only [guard] at hg
+    split at hg
+    · cases hg
+    · dsimp only at hg
+      split at hg
+      · cases hg
+      · split at hg
+        · cases hg
+        · split at hg
+          · injection hg with hg; subst hg; rfl
+          · cases hg
+      · cases hg
+  | unidentify p =>
+    simp only [guard] at hg
+    split at hg
+    · injection hg with hg; subst hg; rfl
+    · cases hg
+  | hostAdd p name mask pw =>
+    simp only [guard] at hg
+    cases name with
+    | some n =>
+      dsimp only at hg
+      split at hg
+      · cases hg
+      · exact hostAddBody_not_follow _ _ _ _ _ _ _ _ hg
+      · cases hg
+    | none =>
+      dsimp only at hg
+      split at hg
+      · cases hg
+      · exact hostAddBody_not_follow _ _ _ _ _ _ _ _ hg
+      · exact hostAddBody_not_follow _ _ _ _ _ _ _ _ hg
+  | hostRemove p name mask pw =>
+    simp only [guard] at hg
+    cases name with
+    | some n =>
+      dsimp only at hg
+      split at hg
+      · cases hg
+      · exact hostRemoveBody_not_follow _ _ _ _ _ _ _ _ hg
+      · cases hg
+    | none =>
+      dsimp only at hg
+      split at hg
+      · cases hg
+      · exact hostRemoveBody_not_follow _ _ _ _ _ _ _ _ hg
+      · exact hostRemoveBody_not_follow _ _ _ _ _ _ _ _ hg
+  | setSecure p pw b =>
+    simp only [guard] at hg
+    split at hg
+    · cases hg
+    · split at hg
+      · injection hg with hg; subst hg; rfl
+      · cases hg
+  | whoami p => simp only [guard] at hg; cases hg
+  | tick dt => simp only [guard] at hg; injection hg with hg; subst hg; rfl
+
 theorem lookup_append_of_some {κ ν} [BEq κ] {l m : List (κ × ν)} {k : κ} {v : ν}
     (h : l.lookup k = some v) : (l ++ m).lookup k = some v := by
   induction l with
@@ -728,7 +931,7 @@ theorem pstep_cases (pwOk : Str → Str → Bool) (pst : PSt) (c : Cmd) :
       (∃ extra, (pstep pwOk pst c).1.pws = pst.pws ++ extra) ∧
       (((pstep pwOk pst c).1.log = pst.log ∧ ∀ id h, op ≠ .identify id h) ∨
        (∃ id p name pw, op = .identify id p ∧ c = .identify p name pw ∧
-          (pstep pwOk pst c).1.log = pst.log ++ [{ uid := id, t := (guard pwOk pst c).1.now, host := p, pw := pw }]))) := by
+          (pstep pwOk pst c).1.log = pst.log ++ [{ uid := id, t := (guard pwOk pst c).1.now, host := p, pw := pw, origin := p }]))) := by
   unfold pstep
   cases hgd : guard pwOk pst c with
   | mk st1 d =>
@@ -755,18 +958,46 @@ theorem pstep_cases (pwOk : Str → Str → Bool) (pst : PSt) (c : Cmd) :
           · exact absurd ⟨_, _, rfl⟩ hid
           · rfl
 
+/-- `b` is reached from `a` through NICK messages, each one sent by exactly (IRC case rules) the
+hostmask reached so far -/
+inductive Follows (ev : List (Str × Str)) : Str → Str → Prop
+  | refl (a : Str) : Follows ev a a
+  | step {a b p c : Str} : Follows ev a b → (p, c) ∈ ev → strEqual p b = true → Follows ev a c
+
+theorem follows_mono {ev ev' : List (Str × Str)} (h : ∀ e ∈ ev, e ∈ ev') {a b : Str}
+    (hf : Follows ev a b) : Follows ev' a b := by
+  induction hf with
+  | refl => exact Follows.refl _
+  | step _ hm hs ih => exact Follows.step ih (h _ hm) hs
+
+/-- the hostmask of every logged identification is the one the password came from, or follows
+from it through NICK messages — and is the very same when the bot does not follow nick changes -/
+def Linked (pst : PSt) : Prop :=
+  ∀ l ∈ pst.log, Follows pst.events l.origin l.host ∧ (pst.follow = false → l.host = l.origin)
+
+/-- every recorded NICK message came from a user hostmask and changed only the nick -/
+def EventsOK (pst : PSt) : Prop :=
+  ∀ e ∈ pst.events, isUserHostmask e.1 = true ∧ ∃ nn, e.2 = newHost e.1 nn
+
 structure PInv (pwOk : Str → Str → Bool) (pst : PSt) : Prop where
   inv : Inv pst.st
   backed : AuthBacked pst
   logOK : LogOK pwOk pst
   disjoint : NoCommon pst.st.db.users
+  linked : Linked pst
+  events : EventsOK pst
+
+theorem pstep_frame (pwOk : Str → Str → Bool) (pst : PSt) (c : Cmd) :
+    (pstep pwOk pst c).1.events = pst.events ∧ (pstep pwOk pst c).1.follow = pst.follow := by
+  unfold pstep
+  split <;> exact ⟨rfl, rfl⟩
 
 theorem pstep_pinv {pwOk : Str → Str → Bool} {pst : PSt} (hi : PInv pwOk pst) (c : Cmd) :
     PInv pwOk (pstep pwOk pst c).1 := by
   have hq := quiet_guard pwOk pst c
   rcases pstep_cases pwOk pst c with ⟨_, hst, hpws, hlog⟩ | ⟨op, hg, hst, ⟨extra, hpws⟩, hlogc⟩
   · -- the guard answered: only lookups happened
-    refine ⟨by rw [hst]; exact hq.inv hi.inv, ?_, ?_, ?_⟩
+    refine ⟨by rw [hst]; exact hq.inv hi.inv, ?_, ?_, ?_, ?_, ?_⟩
     · intro u hu e he
       rw [hst] at hu
       rcases hq.auth u hu e he with ⟨v, hv, hid, hev⟩ | hx
@@ -778,9 +1009,16 @@ theorem pstep_pinv {pwOk : Str → Str → Bool} {pst : PSt} (hi : PInv pwOk pst
       rw [hpws]
       exact hi.logOK l hl
     · rw [hst]; exact noCommon_of_masksFrom hi.disjoint hq.masks
+    · intro l hl
+      rw [hlog] at hl
+      rw [(pstep_frame pwOk pst c).1, (pstep_frame pwOk pst c).2]
+      exact hi.linked l hl
+    · intro e he
+      rw [(pstep_frame pwOk pst c).1] at he
+      exact hi.events e he
   · -- one dictionary operation ran
     have hsa := step_auth (guard pwOk pst c).1 op
-    refine ⟨by rw [hst]; exact step_inv (hq.inv hi.inv) op, ?_, ?_, ?_⟩
+    refine ⟨by rw [hst]; exact step_inv (hq.inv hi.inv) op, ?_, ?_, ?_, ?_, ?_⟩
     · intro u hu e he
       rw [hst] at hu
       have hsub : ∀ l, l ∈ pst.log → l ∈ (pstep pwOk pst c).1.log := by
@@ -797,10 +1035,11 @@ theorem pstep_pinv {pwOk : Str → Str → Bool} {pst : PSt} (hi : PInv pwOk pst
         rcases hlogc with ⟨_, hno⟩ | ⟨id, p, name, pw, hop, _, hlg⟩
         · cases op with
           | identify id' h' => exact absurd rfl (hno id' h')
+          | followNick id' a b => have := guard_not_follow hg; cases this
           | _ => simp only [extraOf] at hx; cases hx
         · subst hop
           simp only [extraOf, List.mem_singleton, Prod.mk.injEq] at hx
-          refine ⟨{ uid := id, t := (guard pwOk pst c).1.now, host := p, pw := pw }, ?_, hx.1.symm, ?_, ?_⟩
+          refine ⟨{ uid := id, t := (guard pwOk pst c).1.now, host := p, pw := pw, origin := p }, ?_, hx.1.symm, ?_, ?_⟩
           · rw [hlg]; exact List.mem_append_right _ (List.mem_singleton.2 rfl)
           · rw [hx.2]
           · rw [hx.2]
@@ -829,6 +1068,19 @@ theorem pstep_pinv {pwOk : Str → Str → Bool} {pst : PSt} (hi : PInv pwOk pst
             exact ⟨s', lookup_append_of_some hlk, hpw⟩
     · rw [hst]
       exact step_noCommon (hq.inv hi.inv) (noCommon_of_masksFrom hi.disjoint hq.masks) op
+    · intro l hl
+      rw [(pstep_frame pwOk pst c).1, (pstep_frame pwOk pst c).2]
+      rcases hlogc with ⟨e1, _⟩ | ⟨id, p, name, pw, _, _, hlg⟩
+      · rw [e1] at hl; exact hi.linked l hl
+      · rw [hlg] at hl
+        rcases List.mem_append.1 hl with hl' | hl'
+        · exact hi.linked l hl'
+        · rw [List.mem_singleton] at hl'
+          subst hl'
+          exact ⟨Follows.refl _, fun _ => rfl⟩
+    · intro e he
+      rw [(pstep_frame pwOk pst c).1] at he
+      exact hi.events e he
 
 theorem prun_pinv {pwOk : Str → Str → Bool} {pst : PSt} (hi : PInv pwOk pst) (cs : List Cmd) :
     PInv pwOk (prun pwOk pst cs) := by
@@ -839,14 +1091,16 @@ theorem prun_pinv {pwOk : Str → Str → Bool} {pst : PSt} (hi : PInv pwOk pst)
     simp only [List.foldl_cons]
     exact ih (pstep_pinv hi c)
 
-theorem pinit (pwOk : Str → Str → Bool) (db : Db) (h : db.users = []) :
-    PInv pwOk { st := { db := db } } := by
-  refine ⟨⟨⟨by rw [h]; simp, ?_, ?_⟩, cacheInv_empty rfl rfl⟩, ?_, ?_, ?_⟩
+theorem pinit (pwOk : Str → Str → Bool) (db : Db) (h : db.users = []) (follow : Bool := false) :
+    PInv pwOk { st := { db := db }, follow := follow } := by
+  refine ⟨⟨⟨by rw [h]; simp, ?_, ?_⟩, cacheInv_empty rfl rfl⟩, ?_, ?_, ?_, ?_, ?_⟩
   · intro u hu; rw [h] at hu; cases hu
   · intro u hu; rw [h] at hu; cases hu
   · intro u hu; simp only at hu; rw [h] at hu; cases hu
   · intro l hl; cases hl
   · intro u hu; simp only at hu; rw [h] at hu; cases hu
+  · intro l hl; cases hl
+  · intro e he; cases he
 
 /-! ### the bot's own lookups around a command -/
 
@@ -867,7 +1121,7 @@ theorem quiet_lookupsAbort (st : St) (p : Str) (n : Nat) : Quiet st (lookupsAbor
 
 theorem pinv_quiet {pwOk : Str → Str → Bool} {pst : PSt} {st' : St} (hi : PInv pwOk pst)
     (hq : Quiet pst.st st') : PInv pwOk { pst with st := st' } := by
-  refine ⟨hq.inv hi.inv, ?_, hi.logOK, noCommon_of_masksFrom hi.disjoint hq.masks⟩
+  refine ⟨hq.inv hi.inv, ?_, hi.logOK, noCommon_of_masksFrom hi.disjoint hq.masks, hi.linked, hi.events⟩
   intro u hu e he
   rcases hq.auth u hu e he with ⟨v, hv, hid, hev⟩ | hx
   · obtain ⟨l, hl, h1, h2, h3⟩ := hi.backed v hv e hev
@@ -875,7 +1129,7 @@ theorem pinv_quiet {pwOk : Str → Str → Bool} {pst : PSt} {st' : St} (hi : PI
   · cases hx
 
 theorem pinv_nicks {pwOk : Str → Str → Bool} {pst : PSt} (hi : PInv pwOk pst) (n : List (Str × Str)) :
-    PInv pwOk { pst with nicks := n } := ⟨hi.inv, hi.backed, hi.logOK, hi.disjoint⟩
+    PInv pwOk { pst with nicks := n } := ⟨hi.inv, hi.backed, hi.logOK, hi.disjoint, hi.linked, hi.events⟩
 
 /-- the invariants survive a command as the live bot processes it, for any number of
 surrounding lookups -/
@@ -901,6 +1155,110 @@ theorem prunA_pinv {pwOk : Str → Str → Bool} {pst : PSt} (amb : Ambient) (hi
     unfold prunA
     simp only [List.foldl_cons]
     exact ih (pstepA_pinv amb hi c)
+
+/-! ### NICK messages -/
+
+theorem mem_followLog {log : List LogEntry} {id : Nat} {old new : Str} {auth : List (Int × Str)} {l : LogEntry}
+    (h : l ∈ followLog log id old new auth) :
+    ∃ l0 ∈ log, l0.uid = id ∧ strEqual old l0.host = true ∧ l = { l0 with host := new } := by
+  unfold followLog at h
+  rw [List.mem_map] at h
+  obtain ⟨l0, h0, e⟩ := h
+  obtain ⟨hm, hc⟩ := List.mem_filter.1 h0
+  simp only [Bool.and_eq_true, beq_iff_eq] at hc
+  exact ⟨l0, hm, hc.1.1, hc.1.2, e.symm⟩
+
+/-- the invariants survive a NICK message, followed or not -/
+theorem nickStep_pinv {pwOk : Str → Str → Bool} {pst : PSt} (hi : PInv pwOk pst) (p nn : Str) :
+    PInv pwOk (nickStep pst p nn).1 := by
+  unfold nickStep
+  split
+  · exact pinv_nicks hi _
+  · rename_i hfo
+    have hfollow : pst.follow = true := by
+      cases hf : pst.follow with
+      | true => rfl
+      | false => rw [hf] at hfo; exact absurd rfl hfo
+    dsimp only
+    have h1 := pinv_quiet hi (quiet_getUser pst.st p)
+    split
+    · exact pinv_nicks h1 _
+    · exact h1
+    · rename_i u hu
+      split
+      · exact pinv_nicks h1 _
+      · split
+        · exact h1
+        · rename_i hshape
+          have hp : isUserHostmask p = true := by
+            cases hh : isUserHostmask p with
+            | true => rfl
+            | false => rw [hh] at hshape; exact absurd rfl hshape
+          have hsa := step_auth (getUser pst.st p).1 (.followNick u.id p (newHost p nn))
+          refine ⟨step_inv h1.inv _, ?_, ?_, step_noCommon h1.inv h1.disjoint _, ?_, ?_⟩
+          · intro u' hu' e he
+            rcases hsa u' hu' e he with ⟨v, hv, hid, hev⟩ | hx
+            · obtain ⟨l, hl, a1, a2, a3⟩ := h1.backed v hv e hev
+              exact ⟨l, List.mem_append_left _ hl, a1.trans hid, a2, a3⟩
+            · simp only [extraOf] at hx
+              split at hx
+              · rename_i w hw
+                obtain ⟨hwm, hwid⟩ := getUserById_spec hw
+                rw [List.mem_map] at hx
+                obtain ⟨a, ha, hea⟩ := hx
+                obtain ⟨ham, hac⟩ := List.mem_filter.1 ha
+                injection hea with e1 e2
+                obtain ⟨l, hl, a1, a2, a3⟩ := h1.backed w hwm a ham
+                refine ⟨{ l with host := newHost p nn }, List.mem_append_right _ ?_, ?_, ?_, ?_⟩
+                · unfold followLog
+                  rw [List.mem_map]
+                  refine ⟨l, List.mem_filter.2 ⟨hl, ?_⟩, rfl⟩
+                  simp only [Bool.and_eq_true, beq_iff_eq]
+                  refine ⟨⟨a1.trans hwid, by rw [a3]; exact hac⟩, ?_⟩
+                  unfold authOf
+                  rw [hw, a2, a3]
+                  exact List.elem_eq_true_of_mem ham
+                · exact (a1.trans hwid).trans e1
+                · rw [← e2]; exact a2
+                · rw [← e2]
+              · cases hx
+          · intro l hl
+            rcases List.mem_append.1 hl with hl' | hl'
+            · exact hi.logOK l hl'
+            · obtain ⟨l0, h0, _, _, e⟩ := mem_followLog hl'
+              subst e
+              exact hi.logOK l0 h0
+          · intro l hl
+            have hmono : ∀ e ∈ pst.events, e ∈ pst.events ++ [(p, newHost p nn)] :=
+              fun e he => List.mem_append_left _ he
+            refine ⟨?_, fun hf => by rw [hfollow] at hf; cases hf⟩
+            rcases List.mem_append.1 hl with hl' | hl'
+            · exact follows_mono hmono (hi.linked l hl').1
+            · obtain ⟨l0, h0, _, hse, e⟩ := mem_followLog hl'
+              subst e
+              exact Follows.step (follows_mono hmono (hi.linked l0 h0).1)
+                (List.mem_append_right _ (List.mem_singleton.2 rfl)) hse
+          · intro e he
+            rcases List.mem_append.1 he with he' | he'
+            · exact hi.events e he'
+            · rw [List.mem_singleton] at he'
+              subst he'
+              exact ⟨hp, nn, rfl⟩
+
+theorem estep_pinv {pwOk : Str → Str → Bool} {pst : PSt} (amb : Ambient) (hi : PInv pwOk pst) (ev : Ev) :
+    PInv pwOk (estep amb pwOk pst ev).1 := by
+  cases ev with
+  | cmd c => exact pstepA_pinv amb hi c
+  | nick p nn => exact nickStep_pinv hi p nn
+
+theorem erun_pinv {pwOk : Str → Str → Bool} {pst : PSt} (amb : Ambient) (hi : PInv pwOk pst) (evs : List Ev) :
+    PInv pwOk (erun amb pwOk pst evs) := by
+  induction evs generalizing pst with
+  | nil => exact hi
+  | cons e es ih =>
+    unfold erun
+    simp only [List.foldl_cons]
+    exact ih (estep_pinv amb hi e)
 
 /-- **a sender that matches two accounts gets nothing done**: when the bot's first lookup of the
 sender raises DuplicateHostmask, the command is not executed — no reply, no new login, no new
